@@ -105,6 +105,9 @@ def r3_alias(rep, ctx):
             # the spelling still resolves to a current unit, but not the one it was derived from
             rep.bad("C16.R3", "alias:%s" % s, "legacy spelling %r (from %r by %r<-%r) is rewritten to a different current unit %r" % (s, u, b, a, fixed),
                     file=fn.path, line=fn.node.lineno)
+        elif getattr(pairs, "count", None) is not None and legacy.apply(legacy.PairList(pairs), s) == u:
+            rep.bad("C16.R3", "alias:%s" % s, "legacy spelling %r of %r is rewritten to %r: the chain replaces only the first %d occurrence(s) of a legacy token, so a spelling in which the token occurs more often is no longer an alias"
+                    % (s, u, fixed, pairs.count), file=fn.path, line=fn.node.lineno)
         else:
             # an earlier pair of the chain rewrites part of the spelling first: the derived string is not a
             # spelling the chain ever accepted for u.  Only an alias if some pair maps to it; record as set aside.
